@@ -475,3 +475,35 @@ package ssh
 //@ props C25 C26
 //@ pure
 //@ ensures result == t.length
+
+// ---- C41: the decision of CertChecker.CheckCert on validity period, principals and critical options ----
+// The clock, the revocation callback and the CA key's Verify are calls through function/interface values
+// (unknown callees: arbitrary results, arbitrary effects on memory); each check is stated over the values
+// the code reads at that point. Times are compared as the unsigned 64-bit quantities of the certificate
+// format (OpenSSH sshkey_cert_check_authority), ValidBefore = 2^64-1 meaning forever.
+//@ func (*Certificate).bytesForSigning
+//@ trusted
+//@ note Marshal of a copy without the signature, minus the trailing length: not verified here
+//@ modifies heap
+
+//@ func skKeyWithoutUP
+//@ trusted
+//@ note clone of a security-key CA key with the user-presence flag waived (identity for other keys): not verified here
+//@ modifies heap
+//@ ensures result != nil
+
+//@ func (*CertChecker).CheckCert
+//@ props C41
+//@ nonnil c cert
+//@ modifies heap
+//@ loop 2 invariant -1 <= rangeindex && rangeindex < len(c.SupportedCriticalOptions) && forall(k, 0, rangeindex + 1, c.SupportedCriticalOptions[k] != opt)
+//@ loop 3 invariant -1 <= rangeindex && rangeindex < len(cert.ValidPrincipals) && forall(k, 0, rangeindex + 1, cert.ValidPrincipals[k] != principal)
+// rejections happen only for the stated reasons
+//@ check_at "unsupported critical option" opt != "source-address" && forall(k, 0, len(c.SupportedCriticalOptions), c.SupportedCriticalOptions[k] != opt)
+//@ check_at "not in the set of valid principals" len(cert.ValidPrincipals) > 0 && forall(k, 0, len(cert.ValidPrincipals), cert.ValidPrincipals[k] != principal)
+//@ check_at "cert is not yet valid" unixNow < cert.ValidAfter
+//@ check_at "cert has expired" cert.ValidBefore != 18446744073709551615 && unixNow >= cert.ValidBefore
+// and a certificate that gets as far as the signature check is inside its validity period and names the principal
+//@ check_at "caKey := skKeyWithoutUP(cert.SignatureKey)" cert.ValidAfter <= unixNow && (unixNow < cert.ValidBefore || cert.ValidBefore == 18446744073709551615)
+//@ check_at "clock := c.Clock" len(cert.ValidPrincipals) == 0 || exists(k, 0, len(cert.ValidPrincipals), cert.ValidPrincipals[k] == principal)
+//@ canary ensures result != nil
